@@ -56,6 +56,20 @@ def timed_case(cid, T, d, slack, second):
             "realTime": True, "lateMs": d, "slackMs": slack}
 
 
+def timed_read_case(cid, R, slack, method):
+    """Real-time case with ONLY a read timeout R: request 1 leaves a connection in the pool; request 2 (repeatable
+    method) reuses it and the peer stays silent (no close).  The call must return at ~R (bound R + slack, slack << R); a
+    client that takes the read time-out on a reused connection for a dead pooled connection repeats the exchange and
+    returns at ~2R."""
+    call = lambda exch, m: {"post": False, "ctxPre": False, "ctxPostAt": 0, "exch": exch, "dial": [], "qtMs": 0, "method": m}
+    return {"id": cid, "seed": 1, "n": 1, "m": 2, "maxConns": 1, "wait": False, "waitMs": 0, "readMs": R,
+            "cleaner": False, "closeIdle": False, "yield": 0, "fw": {"ok": 100}, "pDialErr": 0, "pPost": 0, "pCtxPre": 0,
+            "pCtxPost": 0, "pReqTmo": 0, "sched": [],
+            "calls": {"1": [call(["ok"], "GET"), call(["stall0", "stall0", "stall0"], method)]}, "bgDial": [],
+            "realTime": True, "lateMs": 0, "slackMs": slack}
+
+
+TIMED_READ = [(1500, 700, "GET"), (1200, 600, "PUT")]
 TIMED_QUICK = [(2000, 1400, 800, "stall0"), (1600, 1100, 600, "stallhdr"), (2000, 1200, 700, "stallbody")]
 TIMED_THOROUGH = TIMED_QUICK + [(1200, 900, 500, "stall0"), (2400, 1200, 800, "stall0"), (1800, 1300, 700, "stallhdr"),
                                 (3000, 2000, 1000, "stallbody"), (1500, 1000, 600, "stall0")]
@@ -187,13 +201,14 @@ def run(ctx):
     ncases = 800 if q else 20000
     cases = [dict(MINIMAL_CTX)] + [gen_case(rng, i + 1, q) for i in range(ncases)]
     timed = [timed_case(900000 + i, *t) for i, t in enumerate(TIMED_QUICK if q else TIMED_THOROUGH)]
+    timed += [timed_read_case(900100 + i, *t) for i, t in enumerate(TIMED_READ)]
     if not q:
         cases += schedule_cases(ctx, len(cases))
 
     # 3. run on the real client
     # the real-time cases (seconds each) run in their own driver processes next to the others
     with concurrent.futures.ThreadPoolExecutor(max_workers=2) as ex:
-        ft = ex.submit(run_cases, ctx, drv, timed, ctx.sub("traces_timed"), min(len(timed), 4))
+        ft = ex.submit(run_cases, ctx, drv, timed, ctx.sub("traces_timed"), min(len(timed), 5))
         traces = run_cases(ctx, drv, cases, ctx.sub("traces"), par)
         traces += ft.result()
     cases = cases + timed
